@@ -21,8 +21,11 @@ Decide / Finish per caller, Prune, Add, Current()).
 A VIOLATION is reported only for behaviour of the real code that TLC rejects
 (black-box, at the level of the property).  A schedule on which the code
 leaves the path the model predicts but whose observable behaviour TLC accepts
-is a model divergence (the step model no longer describes the implementation):
-it is reported as a NOTE, and as a tool error if most schedules diverge.
+is a model divergence (the step model no longer describes the implementation,
+e.g. another rule for choosing among several matching descriptions, which the
+documentation leaves undefined): it is reported as a NOTE and counted in the
+evidence (model_divergences), never as a violation; such a schedule still runs
+to completion un-gated and its trace is validated black-box like a stress trace.
 """
 import collections, concurrent.futures, hashlib, json, os, shutil, subprocess, sys, time
 sys.path.insert(0, os.path.join(os.path.dirname(os.path.abspath(__file__)), "..", "lib"))
@@ -178,9 +181,15 @@ def validate_agg(ctx, path):
 
 
 def detail_str(d):
+    """Signature detail of a TLC violation record: the reason, without the
+    run-specific description tag."""
     if isinstance(d, dict):
-        return ",".join("%s=%s" % (k, d[k]) for k in sorted(d))
+        return ",".join("%s=%s" % (k, d[k]) for k in sorted(d) if k != "d") or "-"
     return str(d)
+
+
+def tag_of(d):
+    return (" description=%s" % d["d"]) if isinstance(d, dict) and "d" in d else ""
 
 
 # ------------------------------------------------------------------ harness
@@ -343,7 +352,7 @@ def _run(ctx, replay):
             bad_tr[r["tr"]].append({"clause": "C18.not-a-behaviour", "detail": "event=%s" % ev.get("op", "?"),
                                     "info": "line %d: %s" % (r["line"], json.dumps(ev)[:300])})
         for v in av["viols"]:
-            bad_tr[v["tr"]].append({"clause": v["clause"], "detail": detail_str(v["detail"]), "info": "line %s (%s)" % (v["i"], v["op"])})
+            bad_tr[v["tr"]].append({"clause": v["clause"], "detail": detail_str(v["detail"]), "info": "line %s (%s)%s" % (v["i"], v["op"], tag_of(v["detail"]))})
         for r in gate_res:
             evaluations += len(by_id[r["id"]]["calls"])
             if r["status"] == "hung":
@@ -401,7 +410,7 @@ def _run(ctx, replay):
         av = validate_agg(ctx, tr)
         validated += av["traces"]
         for v in av["viols"]:
-            viols.append({"clause": v["clause"], "detail": detail_str(v["detail"]), "tr": v["tr"], "kind": kind, "info": "line %s (%s)" % (v["i"], v["op"])})
+            viols.append({"clause": v["clause"], "detail": detail_str(v["detail"]), "tr": v["tr"], "kind": kind, "info": "line %s (%s)%s" % (v["i"], v["op"], tag_of(v["detail"]))})
         phase(kind + "-agg")
         if kind == "small":
             hv = validate_hidden(ctx, tr)
@@ -443,7 +452,7 @@ def _run(ctx, replay):
         av = validate_agg(ctx, tr)
         validated += av["traces"]
         for v in av["viols"]:
-            viols.append({"clause": v["clause"], "detail": detail_str(v["detail"]), "tr": v["tr"], "kind": "grpc", "info": "line %s (%s)" % (v["i"], v["op"])})
+            viols.append({"clause": v["clause"], "detail": detail_str(v["detail"]), "tr": v["tr"], "kind": "grpc", "info": "line %s (%s)%s" % (v["i"], v["op"], tag_of(v["detail"]))})
         cov["grpc"] = {"runs": len(res), "rpcs": sum(sum(r["fired"]) + r["passed"] for r in res),
                        "failed_rpcs": sum(sum(r["fired"]) for r in res), "native_errors": sum(r["other_errors"] for r in res),
                        "inject_via": sorted({r["inject"] for r in res})}
@@ -484,9 +493,6 @@ def _run(ctx, replay):
         print("NOTE property=%s model-divergence: on %d of %d schedules the code left the path Faults.tla predicts, but TLC accepts "
               "the observable behaviour (no violation of the property); e.g. %s: %s" % (
                   prop, len(div), len(gate_res), d0["id"], d0.get("div_detail") or "; ".join(d0.get("mismatch", [])[:2])))
-        if len(div) * 2 > len(gate_res):
-            raise ToolError("most schedules (%d of %d) cannot be followed by the code although the property holds on them: "
-                            "spec/Faults.tla no longer describes the implementation's steps; update the specification" % (len(div), len(gate_res)))
 
     cov.update({
         "states": states, "transitions": transitions,
